@@ -14,6 +14,15 @@ type GammaController struct {
 	runtime.GleeceController
 }
 
+// Files a receipt (the parameter is called body like AlphaController's, its type lives in another package)
+// @Method(PUT)
+// @Route(/receipts)
+// @Body(body)
+// @Response(200) Filed
+func (c *GammaController) FileReceipt(body om.Receipt) error {
+	return nil
+}
+
 // Creates a widget
 // @Method(POST)
 // @Route(/widgets)
@@ -38,6 +47,7 @@ func (c *GammaController) ListWidgetNames(colour Colour) ([]string, error) {
 // @Route(/receipts/{serial})
 // @Path(serial)
 // @Response(201) The receipt
+// @ErrorResponse(201) Already issued
 func (c *GammaController) IssueReceipt(serial string) (om.Receipt, error) {
 	return om.Receipt{Serial: serial}, nil
 }
